@@ -90,13 +90,14 @@ def main(tier=None, replay=None):
     if len(cfgs) < 8:
         raise MachineryError("StmConfigs emitted too few configurations")
     systems = {}
-    ics = {"planar": [0.82, 0.03, 0.0, 0.05, 0.15, 0.0], "spatial": [0.82, 0.03, 0.08, 0.05, 0.15, 0.07]}
+    # initial states away from both primaries for every mu (near the triangular region): no close approach within tf
+    ics_of = lambda mu: {"planar": [0.55 - mu, 0.7, 0.0, 0.05, -0.1, 0.0], "spatial": [0.55 - mu, 0.7, 0.08, 0.05, -0.1, 0.07]}
     cs = ContractSet(ck, "stm_contracts")
     for c in sorted(cfgs, key=lambda c: json.dumps(c, sort_keys=True)):
         name = c["system"]
         if name not in systems:
             systems[name] = System.from_bodies(*name.split("-")) if "-" in name else System.from_mu(1.0 / int(name[2:]))
-        cfg = dict(c, ic=ics[c["kind"]], tf=c["tf10"] / 10.0, steps={"fixed": 4000, "adaptive": 200}[c["method"]])
+        cfg = dict(c, ic=ics_of(float(systems[name].mu))[c["kind"]], tf=c["tf10"] / 10.0, steps={"fixed": 4000, "adaptive": 200}[c["method"]])
         stm_case(ck, cs, systems[name], cfg)
 
     # periodic orbits: the monodromy maps the velocity vector to itself
